@@ -126,6 +126,12 @@ func init() {
 								if cfg.BossCascade == boltz.CascadeCreateUpdate && t == kmodel.Emps && strings.Contains(h, `/"bs"`) {
 									continue // declared: create/update-only fk does not police deletes
 								}
+								if cfg.BossCascade == boltz.CascadeCreateUpdate && t == kmodel.Depts && strings.Contains(h, `/"bs"`) && contains(e.EmpPool, id) {
+									// shared id universes: the boss field only ever names employees - this is the (declared) dangling
+									// reference to a former employee of the same id, not a trace of the department
+									c.Count("scan_skipped_boss_reference_to_a_former_employee_of_the_same_id", 1)
+									continue
+								}
 								real = append(real, h)
 							}
 							if len(real) > 0 {
